@@ -751,7 +751,7 @@ func refLike(t types.Type) bool {
 // readOnlyCallee: the callee is known not to write through argument i.
 func readOnlyCallee(p *Program, call *ssa.Call, i int) bool {
 	name := calleeName(call)
-	if ext, ok := externals[name]; ok {
+	if ext, ok := externals[extName(name)]; ok {
 		for _, w := range ext.Writes {
 			if w == i {
 				return false
